@@ -148,7 +148,7 @@ class Spec(unit.UnitSpec):
     modules = ["MmtkModel.Props.C39"]
     theorems = ["Mmtk.Opts.set_iff_parse_and_valid", "Mmtk.Opts.set_false_unchanged", "Mmtk.Opts.set_true_effect",
                 "Mmtk.Opts.bulk_eq_fold", "Mmtk.Opts.parseDigits_spec", "Mmtk.Opts.parseUnsigned_spec",
-                "Mmtk.Opts.parseSize_spec", "Mmtk.Opts.trigger_spec", "Mmtk.Opts.trigger_fixed_accepts", "Mmtk.Opts.trigger_delegated_prefix",
+                "Mmtk.Opts.parseSize_spec", "Mmtk.Opts.trigger_spec", "Mmtk.Opts.trigger_fixed_accepts", "Mmtk.Opts.trigger_delegated_exact",
                 "Mmtk.Opts.nursery_spec", "Mmtk.Opts.cpulist_item_spec", "Mmtk.Opts.insertCore_spec",
                 "Mmtk.Opts.insertRange_spec"]
     component = "opts"
@@ -323,7 +323,7 @@ class Spec(unit.UnitSpec):
                         ref = self.ref_trigger(val)
                         valid = ref is not None and not (ref == "Fixed(0)") and not (ref.startswith("Dynamic(") and
                                                                                      int(ref[8:-1].split(";")[0]) > int(ref[8:-1].split(";")[1]))
-                        if valid != (res == "true") and not (val.startswith("Delegated") and val != "Delegated"):
+                        if valid != (res == "true"):
                             bad.append(("opts:trigger-grammar", f"gc_trigger={val!r}: set returned {res}, documented grammar+validation says {valid}"))
                     if res == "panic":
                         bad.append(("opts:set-panicked", f"set_from_string({key!r}, {val!r}) panicked"))
@@ -334,6 +334,7 @@ class Spec(unit.UnitSpec):
                 got = None if out == "err" else out
                 if got != ref:
                     if s.startswith("Delegated") and s != "Delegated" and got == "Delegated":
+                        # (repaired by a fix: commit; the key stays so that a regression is reported under the same name)
                         bad.append(("opts:delegated-prefix", f"GCTriggerSelector::from_str({s!r}) = Delegated (any suffix after 'Delegated' is accepted)"))
                     else:
                         bad.append(("opts:trigger-grammar", f"GCTriggerSelector::from_str({s!r}) = {got}, documented grammar gives {ref}"))
@@ -389,7 +390,7 @@ META = {
              "false leaves every option unchanged, true changes exactly that option; bulk setting = left fold of single sets "
              "stopping at the first failure (unknown key panics with earlier pairs applied); u64/u16 parsing computes the "
              "decimal value and reports overflow; size / GC-trigger / nursery / CPU-list parsers characterised by explicit "
-             "grammars (incl. the observed deviations: any suffix after 'Delegated', leading '+' where no regex guards). Exact "
+             "grammars (incl. the observed deviation: a leading '+' where no regex guards; the 'Delegated<suffix>' deviation was repaired by a fix: commit). Exact "
              "differential of all 28 options' values after every call on grammar-directed + mutated strings."),
     "note": ("Trusted: Lean kernel + standard axioms; hand-transcribed model; regex crate and f64::from_str only through the "
              "differential (ASCII \\d, decimal fragment); option table hand-transcribed from options! (checked by the dump "
